@@ -234,5 +234,135 @@ theorem armor_transparent (P : Prims) (C W : Nat) (hW : 0 < W) (ids : List Ident
   rw [Armor.read_armor W hW file]
   exact ⟨rfl, rfl⟩
 
+/-! ## Non-vacuity: for every theorem above, concrete values meeting all of its hypotheses at once -/
+
+/-- witness values shared by the non-vacuity statements below -/
+def wFk : Bytes := [1, 2, 3, 4, 5, 6, 7, 8, 9, 10, 11, 12, 13, 14, 15, 16]
+def wPt : Bytes := [1, 2, 3, 4, 5, 6, 7, 8, 9]
+
+/-- non-vacuity of `stream_roundtrip`: the toy AEAD, chunks of 4, a 9-byte plaintext (three chunks) -/
+theorem stream_roundtrip_nonvacuous :
+    AEAD.toy.Correct ∧ AEAD.toy.NonceSep ∧ 0 < 4 ∧
+    encrypt AEAD.toy 4 [7] wPt ≠ [] ∧ decrypt AEAD.toy 4 [7] (encrypt AEAD.toy 4 [7] wPt) = (wPt, .eof) :=
+  ⟨AEAD.toy_correct, AEAD.toy_nonceSep, by decide, by decide,
+    stream_roundtrip AEAD.toy AEAD.toy_correct AEAD.toy_nonceSep 4 (by decide) [7] wPt⟩
+
+/-- non-vacuity of `x25519_wrap_unwrap`: toy primitives, a 16-byte file key, the stanza the wrap returns -/
+theorem x25519_wrap_unwrap_nonvacuous :
+    ∃ st, Prims.toy.Correct ∧
+      Prims.toy.x25519 (List.replicate 32 2) Prims.toy.basepoint = some (List.replicate 32 0) ∧
+      wFk.length = 16 ∧
+      wrapX25519 Prims.toy (List.replicate 32 0) (List.replicate 32 5) wFk = some st ∧
+      st.body.length = 28 :=
+  ⟨_, Prims.toy_correct, rfl, rfl, rfl, by decide⟩
+
+example : ∃ st, unwrapX25519 Prims.toy (List.replicate 32 2) st = .key wFk :=
+  let ⟨st, hP, hpk, hfk, hw, _⟩ := x25519_wrap_unwrap_nonvacuous
+  ⟨st, x25519_wrap_unwrap Prims.toy hP _ _ _ _ st hpk hfk hw⟩
+
+/-- non-vacuity of `scrypt_wrap_unwrap`: toy primitives, work factor 18 against a maximum of 22, 16-byte salt and file key -/
+theorem scrypt_wrap_unwrap_nonvacuous :
+    Prims.toy.Correct ∧ 1 ≤ 18 ∧ 18 ≤ 30 ∧ 18 ≤ 22 ∧ (List.replicate 16 (3 : UInt8)).length = 16 ∧ wFk.length = 16 :=
+  ⟨Prims.toy_correct, by decide, by decide, by decide, rfl, rfl⟩
+
+example : (unwrapScrypt Prims.toy [112, 119] 22 (wrapScrypt Prims.toy [112, 119] 18 (List.replicate 16 3) wFk)).1 = .key wFk :=
+  let ⟨hP, h1, h30, hmax, hsalt, hfk⟩ := scrypt_wrap_unwrap_nonvacuous
+  scrypt_wrap_unwrap Prims.toy hP _ _ _ 18 22 h1 h30 hmax hsalt hfk
+
+/-- non-vacuity of `sshed_wrap_unwrap`: toy primitives; the wrap returns a stanza -/
+theorem sshed_wrap_unwrap_nonvacuous :
+    ∃ st, Prims.toy.Correct ∧
+      Prims.toy.x25519 (List.replicate 32 2) Prims.toy.basepoint = some (List.replicate 32 0) ∧
+      wrapSshEd Prims.toy [1, 2, 3] (List.replicate 32 0) (List.replicate 32 5) wFk = some st :=
+  ⟨_, Prims.toy_correct, rfl, rfl⟩
+
+/-- non-vacuity of `sshrsa_wrap_unwrap`: toy primitives (every pair is a key pair); the wrap returns a stanza -/
+theorem sshrsa_wrap_unwrap_nonvacuous :
+    ∃ st, Prims.toy.Correct ∧ Prims.toy.rsaPair [4, 5] [6, 7] ∧
+      wrapSshRsa Prims.toy [1, 2, 3] [4, 5] (List.replicate 32 6) wFk = some st :=
+  ⟨_, Prims.toy_correct, trivial, rfl⟩
+
+/-- non-vacuity of the four implications in `other_type_incorrect`: a grease stanza (type "g") is of none of the native types -/
+theorem other_type_incorrect_nonvacuous :
+    let s : Stanza := { type := [103], args := [[120]], body := [1, 2, 3] }
+    s.type ≠ tX25519 ∧ s.type ≠ tScrypt ∧ s.type ≠ tSshEd ∧ s.type ≠ tSshRsa := by decide
+
+/-- a 120-byte random tape 0, 1, 2, … -/
+def wTape : Bytes := (List.range 120).map Nat.toUInt8
+/-- an ssh-rsa recipient followed by an X25519 recipient -/
+def wRs : List Recipient := [Recipient.sshRsa [1, 2, 3] [4, 5], Recipient.x25519 (List.replicate 32 0)]
+
+/-- (helper for the witnesses below) both recipients produce well-formed stanzas -/
+theorem wRs_producesWF : ∀ r ∈ wRs, r.ProducesWF Prims.toy := by
+  intro r hr
+  simp only [wRs, List.mem_cons, List.mem_nil_iff, or_false] at hr
+  rcases hr with rfl | rfl
+  · exact producesWF_sshRsa _ Prims.toy_correct _ _
+  · exact producesWF_x25519 _ Prims.toy_correct _
+
+set_option maxRecDepth 8192 in
+/-- non-vacuity of `decrypt_encrypt`: toy primitives, chunks of 4, a 9-byte plaintext, two recipients (ssh-rsa, then
+    X25519) giving a two-stanza header; identity list: a passphrase and an ssh-ed25519 identity that answer
+    "incorrect", then the X25519 identity that opens the file key (second stanza), then one more -/
+theorem decrypt_encrypt_nonvacuous :
+    ∃ file fk stanzas t,
+      Prims.toy.Correct ∧ Prims.toy.aead.NonceSep ∧ 0 < 4 ∧ (∀ r ∈ wRs, r.ProducesWF Prims.toy) ∧
+      encryptFile Prims.toy 4 wTape wRs wPt = .ok file ∧
+      encryptHeader Prims.toy wTape wRs = .ok (fk, stanzas, t) ∧ stanzas.length = 2 ∧
+      (∀ i ∈ [Identity.scrypt [112] 22, Identity.sshEd [1] [2]], i.unwrap Prims.toy stanzas = .incorrect) ∧
+      (Identity.x25519 (List.replicate 32 2)).unwrap Prims.toy stanzas = .key fk := by
+  refine ⟨_, _, _, _, Prims.toy_correct, AEAD.toy_nonceSep, by decide, wRs_producesWF, rfl, rfl, ?_, ?_, ?_⟩
+  · decide
+  · decide
+  · decide
+
+/-- … and `decrypt_encrypt` then gives the plaintext back, having consulted three identities -/
+example : ∃ file,
+    decryptFile Prims.toy 4 ([Identity.scrypt [112] 22, Identity.sshEd [1] [2]] ++
+      Identity.x25519 (List.replicate 32 2) :: [Identity.custom fun _ => .fatal]) file = .ok (wPt, .eof) ∧
+    (decryptInit Prims.toy ([Identity.scrypt [112] 22, Identity.sshEd [1] [2]] ++
+      Identity.x25519 (List.replicate 32 2) :: [Identity.custom fun _ => .fatal]) file).2 = 3 := by
+  obtain ⟨file, fk, stanzas, t, hP, hN, hC, hrs, henc, hh, _, hpre, hid⟩ := decrypt_encrypt_nonvacuous
+  obtain ⟨fk', stanzas', t', hh', h⟩ := decrypt_encrypt Prims.toy hP hN 4 hC wTape wRs wPt file hrs henc
+  rw [hh] at hh'
+  simp only [Except.ok.injEq, Prod.mk.injEq] at hh'
+  obtain ⟨rfl, rfl, rfl⟩ := hh'
+  exact ⟨file, h _ _ _ hpre hid⟩
+
+/-- non-vacuity of `hsep_other_types`: an ssh-rsa recipient, toy primitives, a 40-byte tape: `wrapOne` returns one stanza -/
+theorem hsep_other_types_nonvacuous :
+    ∃ ss l t',
+      ((∃ pw n, Recipient.sshRsa [1, 2, 3] [4, 5] = .scrypt pw n) ∨ (∃ w m, Recipient.sshRsa [1, 2, 3] [4, 5] = .sshEd w m) ∨
+        (∃ w p, Recipient.sshRsa [1, 2, 3] [4, 5] = .sshRsa w p)) ∧
+      wrapOne Prims.toy (Recipient.sshRsa [1, 2, 3] [4, 5]) wFk (List.replicate 40 6) = .ok (some (ss, l), t') ∧
+      ss.length = 1 :=
+  ⟨_, _, _, Or.inr (Or.inr ⟨_, _, rfl⟩), rfl, rfl⟩
+
+set_option maxRecDepth 8192 in
+/-- non-vacuity of `x25519_identity_opens`: toy primitives; the X25519 recipient stands between an ssh-rsa recipient
+    (`rs1`, so `hsep` has something to say) and an ssh-ed25519 recipient (`rs2`); Encrypt's header has three stanzas -/
+theorem x25519_identity_opens_nonvacuous :
+    ∃ fk stanzas t,
+      Prims.toy.Correct ∧
+      Prims.toy.x25519 (List.replicate 32 2) Prims.toy.basepoint = some (List.replicate 32 0) ∧
+      encryptHeader Prims.toy wTape ([Recipient.sshRsa [1, 2, 3] [4, 5]] ++ Recipient.x25519 (List.replicate 32 0) ::
+        [Recipient.sshEd [9] (List.replicate 32 0)]) = .ok (fk, stanzas, t) ∧ stanzas.length = 3 ∧
+      (∀ r ∈ [Recipient.sshRsa [1, 2, 3] [4, 5]], ∀ tp ss l t', wrapOne Prims.toy r fk tp = .ok (some (ss, l), t') →
+        ∀ s ∈ ss, unwrapX25519 Prims.toy (List.replicate 32 2) s = .incorrect) := by
+  refine ⟨_, _, _, Prims.toy_correct, rfl, rfl, by decide, ?_⟩
+  intro r hr tp ss l t' hw
+  simp only [List.mem_singleton] at hr
+  subst hr
+  exact hsep_other_types Prims.toy _ _ tp _ ss l t' (Or.inr (Or.inr ⟨_, _, rfl⟩)) hw
+
+/-- … and `x25519_identity_opens` then says the identity opens that header -/
+example : ∃ fk stanzas, stanzas.length = 3 ∧
+    (Identity.x25519 (List.replicate 32 2)).unwrap Prims.toy stanzas = .key fk :=
+  let ⟨fk, stanzas, t, hP, hpk, hh, hl, hsep⟩ := x25519_identity_opens_nonvacuous
+  ⟨fk, stanzas, hl, x25519_identity_opens Prims.toy hP wTape _ _ _ _ fk stanzas t hpk hh hsep⟩
+
+/-- non-vacuity of `armor_transparent`: a whitespace budget of 1024 -/
+theorem armor_transparent_nonvacuous : 0 < 1024 := by decide
+
 end Props.C01
 end AgeModel
